@@ -282,6 +282,97 @@ def o_dist(ctx, case, r=None):
     return None
 
 
+def _dist_branches(case, r):
+    tt = r['total'] or 0
+    if case.get('ngens') is not None:
+        BR['aggregate:length-mismatch-error'] += 1
+        return
+    if tt == 0:
+        BR['distribute:total-0'] += 1
+    w = r['weights']
+    if not all(x == x for x in w):
+        return
+    rc = [int(np.round(tt * x)) for x in w]
+    sm = sum(rc)
+    BR['distribute:rounding-exact' if sm == tt else 'distribute:incr(top-up)' if sm < tt else 'distribute:decr(surplus)'] += 1
+    if sm > tt and any(c_ == 0 and x > 0 for c_, x in zip(rc, w)):
+        BR['distribute:decr-masks-empty-dataset'] += 1
+    for (p_, u_, res_) in r['choice_calls']:
+        for i in np.atleast_1d(res_):
+            BR['choice:first-item' if i == 0 else 'choice:last-item' if i == len(p_) - 1 else 'choice:interior-item'] += 1
+            if np.any(p_[:i] == 0):
+                BR['choice:skips-zero-weight-item'] += 1
+
+
+def _mc_branches(run_):
+    c = run_.case
+    BR['minMax:ok'] += 1
+    BR['normalise:ok'] += 1
+    BR['mu2flux:ok'] += 1
+    if len(c['groups']) * len(c['dss']) > 1:
+        BR['tableStep:several-(group,dataset)-pairs'] += 1
+    have = set((r[0], r[2], r[3]) for r in run_.rows)
+    for g, G in enumerate(c['groups']):
+        BR['inE:no-range' if G['erange'] is None else 'inE:range'] += 1
+        BR['batchedIdx:one-batch' if len(G['sources']) <= int(G.get('batch', 128)) else 'batchedIdx:several-batches'] += 1
+        for j, f in enumerate(run_.mcs):
+            L_, U_ = float(np.min(f['sin_true_dec'])), float(np.max(f['sin_true_dec']))
+            for k, s_ in enumerate(G['sources']):
+                x = math.sin(s_[1])
+                BR['band:source-inside-coverage' if L_ <= x <= U_ else 'band:source-outside-coverage'] += 1
+                if (j, g, k) not in have:
+                    BR['groupCands:no-candidate-for-a-source'] += 1
+    if c.get('dyadic'):
+        BR['inBand:event-on-closed-edge'] += 1
+    tot = run_.total or 0
+    if tot == 0:
+        BR['generate:total-0'] += 1
+        return
+    if run_.exc is not None or not len(run_.cdf):
+        return
+    nds_out = len(run_.events)
+    BR['generate:one-dataset-drawn' if nds_out == 1 else 'generate:several-datasets-drawn'] += 1
+    rows_by_ds = dict((j, run_._impl_rows_of(j)) for j in run_.events)
+    for j, rr in rows_by_ds.items():
+        if len(set(run_.impl_rows[r][2] for r in rr if r >= 0)) > 1:
+            BR['genShgs:several-groups-in-a-dataset'] += 1
+            BR['setSel:several-slices-in-one-buffer'] += 1
+    BR['postProc:ok'] += 1
+    polar = any(abs(abs(s_[1]) - math.pi / 2) < 1e-12 for G in c['groups'] for s_ in G['sources'])
+    BR['offsetBy:pole-branch' if polar else 'offsetBy:regular'] += 1
+    flds = set(f for d in run_.vr for f in d)
+    if not flds:
+        BR['invalidMask:no-ranges'] += 1
+    if any(len(d) > 1 for d in run_.vr):
+        BR['invalidMask:several-fields'] += 1
+    if flds & set(('ra', 'dec', 'sin_dec')):
+        BR['fieldVal:relocated-field'] += 1
+    if flds - set(('ra', 'dec', 'sin_dec')):
+        BR['fieldVal:stored-field'] += 1
+    # first draw: which rows, how many invalid per (dataset, group)
+    first = np.searchsorted(run_.cdf, np.asarray(run_.us[:tot]), side='right')
+    first = first[first < len(run_.valid)]
+    vbits = np.asarray(run_.valid)
+    k_inv = int(np.sum(~vbits[first])) if len(first) else 0
+    for fld in flds:
+        vals = _row_values(c, run_.mcs, run_.rows, fld)
+        for r in first:
+            rg = run_.vr[run_.rows[r][0]].get(fld)
+            if rg is not None and vals[r] == vals[r]:
+                if vals[r] < rg[0]:
+                    BR['invalidMask:below-lo'] += 1
+                elif vals[r] > rg[1]:
+                    BR['invalidMask:above-hi'] += 1
+    used = len(run_.us) - tot
+    if k_inv == 0:
+        BR['genGroup:nothing-invalid'] += 1
+    else:
+        BR['genGroup:redraw'] += 1
+        BR['redraw:one-round' if used <= k_inv else 'redraw:several-rounds'] += 1
+        if k_inv < len(first):
+            BR['replaceInvalid:keeps-valid-and-replaces-invalid'] += 1
+
+
 def dist_lines(case, r):
     if case.get('ngens') is not None:
         # the aggregation with the count vector the implementation would use if it got that far: only the
@@ -324,13 +415,14 @@ def _dec_with_sin(x):
     return None
 
 
-def gen_mc_case(rng, small=False):
-    if rng.random() < 0.3:
+def gen_mc_case(rng, small=False, force_simple=False):
+    if not force_simple and rng.random() < 0.3:
         c = _gen_dyadic_case(rng)
         if c is not None:
             return c
-    nds = rng.choice([1, 2, 2, 3])
-    ngr = rng.choice([1, 1, 2])
+    simple = force_simple or rng.random() < 0.15       # one dataset, one group, one source, mild rejection: redraws that end in one round
+    nds = 1 if simple else rng.choice([1, 2, 2, 3])
+    ngr = 1 if simple else rng.choice([1, 1, 2])
     dss = []
     for j in range(nds):
         lo = rng.choice([-1.0, -0.9, -0.5, -0.2])
@@ -341,11 +433,11 @@ def gen_mc_case(rng, small=False):
     U = min(d['sin_hi'] for d in dss)
     groups = []
     for g in range(ngr):
-        ns = rng.choice([1, 2, 3])
-        hbw = rng.choice([0.02, 0.05, 0.1, math.sin(math.radians(1)) * 3])
+        ns = 1 if simple else rng.choice([1, 2, 3])
+        hbw = 0.2 if simple else rng.choice([0.02, 0.05, 0.1, math.sin(math.radians(1)) * 3])
         srcs = []
         for k in range(ns):
-            kind = rng.choice(['in', 'in', 'edge_lo', 'edge_hi', 'at_edge', 'outside', 'pole'])
+            kind = 'in' if simple else rng.choice(['in', 'in', 'edge_lo', 'edge_hi', 'at_edge', 'outside', 'pole'])
             if kind == 'outside':            # source outside the MC coverage (band leaves the coverage, maybe empty)
                 x = rng.choice([L - 0.3 * rng.random(), U + 0.3 * rng.random()])
             elif kind == 'pole':             # source exactly at / within 1e-13 of a celestial pole
@@ -377,6 +469,8 @@ def gen_mc_case(rng, small=False):
          'reject': rng.choice([0.0, 0.0, 0.2, 0.5, 0.8, 0.95]),
          'vfield': rng.choice(['log_energy', 'ang_err', 'dec', 'sin_dec']),
          'vsel': rng.random()}
+    if simple:
+        c.update(n=rng.choice([2, 3, 4, 6]), reject=0.2, vfield=rng.choice(['log_energy', 'ang_err']))
     if rng.random() < 0.3:
         c['vfield2'] = rng.choice([f for f in ('log_energy', 'ang_err', 'sin_dec') if f != c['vfield']])
     if rng.random() < 0.25:
@@ -1419,10 +1513,15 @@ def _run(ctx):
     dist_cases = [{'Y': [3.0, 3.0, 3.0, 1.0], 'mean': 5, 'seed': 4}]          # the design's witness
     dist_cases += [gen_dist_case(rng) for _ in range(ctx.n(600, 15000))]
     reqs, runs = [], []
+    agg_reqs = []
     for c in dist_cases:
         r = run_dist_impl(c)
         runs.append(r)
         reqs.append(dist_lines(c, r))
+        # aggregation (n_signal += …, dictionaries merged by key) on the counts the implementation used
+        ok_counts = r['exc'] is None and c.get('ngens') is None and all(x is not None for x in r['counts'])
+        agg_reqs.append('agg %s %d' % (','.join(str(x) for x in r['counts']), len(r['counts'])) if ok_counts else 'agg 0 1')
+        _dist_branches(c, r)
         tt = r['total'] or 0
         s = sum(int(round(tt * w)) for w in r['weights']) if all(w == w for w in r['weights']) else 0
         ctx.count('dist:rounding-' + ('exact' if s == tt else 'up' if s > tt else 'down'))
@@ -1437,7 +1536,15 @@ def _run(ctx):
         if any(0 < w < 1e-6 for w in r['weights']):
             ctx.count('dist:has-tiny-weight')
     models = ctx.driver('C18', reqs)
+    aggs = ctx.driver('C18', agg_reqs)
     suspicious = []
+    for c, r, a_req, a_ans in zip(dist_cases, runs, agg_reqs, aggs):
+        if a_req != 'agg 0 1':
+            BR['aggregate:ok'] += 1
+            want = '%d;%s' % (r['n_signal'], ','.join('%d=%d' % (j, r['lens'].get(j, 0)) for j in range(len(r['counts']))))
+            if a_ans != want:
+                suspicious.append(('dist', c, 'aggregation of the per-dataset results: implementation %s, model %s' % (want, a_ans),
+                                   a_ans, False))
     for c, r, m in zip(dist_cases, runs, models):
         ctx.case(key=('dist', c), desc={'kind': 'dist', **c} if ctx.evaluations % 1499 == 0 else None)
         (d, stream_only) = dist_compare(c, r, m)
@@ -1475,6 +1582,7 @@ def _run(ctx):
     for c, m in zip(reloc_cases, models):
         ctx.case(key=('reloc', c['v']), desc={'kind': 'reloc', **c} if ctx.evaluations % 997 == 0 else None)
         ctx.count('reloc:' + c['kind'])
+        BR['offsetBy:pole-branch' if abs(math.cos(c['v'][1])) < 1e-12 else 'offsetBy:regular'] += 1
         res = o_reloc(ctx, c)
         if res:
             _report(ctx, 'reloc', c, res, model_output=m)
@@ -1500,7 +1608,9 @@ def _run(ctx):
     mc_runs, all_lines = [], []
     it = 0
     while it < ctx.n(30, 400):
-        c = gen_mc_case(rng, small=not ctx.thorough)
+        c = gen_mc_case(rng, small=not ctx.thorough, force_simple=(it in (1, 2, 3, 4)))
+        if it == 0:
+            c['n'] = 0                       # directed: nothing requested
         if not _ref_table(c, _mc_fields(c))[0]:
             ctx.count('mc:no-candidate-at-all(skipped)')
             continue
@@ -1561,11 +1671,31 @@ def _run(ctx):
     answers = ctx.driver('C18', all_lines)
     for (c, run_, off, k) in mc_runs:
         (d, amb, stream_only) = run_.compare(answers[off:off + k])
+        _mc_branches(run_)
+        if run_.kw_hist is not None and run_.kw_hist[1] is not None:
+            BR['kwCall:early-return(mean 0)'] += sum(1 for m in run_.kw_hist[0] if m == 0)
+            BR['kwCall:overwrite'] += sum(1 for m in run_.kw_hist[0] if m != 0)
         if d and amb:
             n_amb += 1
         elif d:
             suspicious.append(('mc', c, d, None, stream_only))
     ctx.extra['mc_numerically_ambiguous_skipped'] = n_amb
+    # directed: a source batch size 0 is an error on both sides (ZeroDivisionError / model ERR)
+    if mc_runs:
+        (c0, run0, off0, k0) = mc_runs[0]
+        cz = dict(c0, groups=[dict(G, batch=0) for G in c0['groups']])
+        ctx.case(key=('batch0', cz))
+        try:
+            fx.make_mc_generator(run0.cfg, cz['groups'], run0.mcs, run0.lts)
+            impl0 = 'ok'
+        except Exception:  # noqa
+            impl0 = 'ERR'
+        ls0 = [(' '.join(t.split(' ')[:8] + ['0'] + t.split(' ')[9:]) if t.startswith('grp ') else t)
+               for t in all_lines[off0:off0 + run0.i_table + 1]]
+        mod0 = 'ERR' if ctx.driver('C18', ls0)[-1] == 'ERR' else 'ok'
+        BR['batchedIdx:batch-size-0-error'] += 1
+        if impl0 != mod0:
+            suspicious.append(('mc', cz, 'source batch size 0: implementation %s, model %s' % (impl0, mod0), None, False))
 
     # ---------------- disagreements model / implementation: look for a failing input, else report the relation
     seen = set()
@@ -1598,6 +1728,12 @@ def _run(ctx):
     for k, v in SKIPS.items():
         ctx.count(k, v)
     SKIPS.clear()
+    ctx.extra['branch_hits'] = dict((b, int(BR[b])) for b in BRANCHES)
+    ctx.extra['zero_hit_branches'] = [b for b in BRANCHES if BR[b] == 0]
+    ctx.extra['error_branches_not_exercised'] = UNREACHABLE
+    for b in BRANCHES:
+        ctx.count('branch:' + b, int(BR[b]))
+    BR.clear()
 
 
 MANIFEST = dict(
